@@ -297,6 +297,8 @@ def run(ctx):
                        require_actions=["GenPickHomog", "GenPickSalt", "ShiftK", "GenPickInit"] if tag == "q" else (),
                        require_cases=500, timeout=900)
         pool_cases += pool.cases
+    # TLC prints cases in worker order: sort, so that the seed alone determines the sample
+    pool_cases.sort(key=lambda c: core.stable_hash(c["in"]))
     seen, cases = set(), []
     for c in pool_cases:
         h = core.stable_hash(c["in"])
@@ -317,6 +319,7 @@ def run(ctx):
     for tag in (("q",) if ctx.quick else ("q", "t")):
         r1 = ctx.tlc("EqSolve_MC", "EqSolve_MC_single_%s.cfg" % tag, require_cases=300, timeout=600)
         singles += [c for c in r1.cases if c["exp"]["single"]]
+    singles.sort(key=lambda c: core.stable_hash(c["in"]))
     shapes = {tuple(sorted(c["in"]["nu"][0])) for c in singles}
     if len(shapes) < 8:
         raise core.MachineryFailure("single-equilibrium pool has only %d stoichiometric shapes" % len(shapes))
